@@ -1129,5 +1129,186 @@ func main() {
 		pln("].")
 
 	})
+	section("Definition go_map_iteration : list (string * string * string) := [(\"<unrecognised>\", \"\", \"\")].\n", func() {
+		// every function of the evaluation files that enumerates a map through reflect (MapKeys, MapRange), as (file, function, class):
+		//   "sorted-bytewise": the keys are sorted, before anything else is done with them, by a comparison this extractor recognises
+		//                      as the byte order of their String() - sort.Slice / sort.SliceStable with `k[i].String() < k[j].String()`,
+		//                      or slices.SortFunc / SortStableFunc with strings.Compare / cmp.Compare of the two String()s;
+		//   "unsorted":        no sort of the enumerated keys in the function;
+		//   "other: <text>":   a sort whose comparison is not one of those forms.
+		pln("(* (file, function, class) of every function that enumerates a map *)")
+		pln("Definition go_map_iteration : list (string * string * string) := [")
+		var lines []string
+		stringOf := func(e ast.Expr) ast.Expr { // X.String() -> X
+			c, ok := e.(*ast.CallExpr)
+			if !ok || len(c.Args) != 0 {
+				return nil
+			}
+			se, ok := c.Fun.(*ast.SelectorExpr)
+			if !ok || se.Sel.Name != "String" {
+				return nil
+			}
+			return se.X
+		}
+		indexed := func(e ast.Expr, coll, idx string) bool { // coll[idx]
+			ix, ok := e.(*ast.IndexExpr)
+			return ok && anyExprText(ix.X) == coll && anyExprText(ix.Index) == idx
+		}
+		singleReturn := func(fl *ast.FuncLit) ast.Expr {
+			if fl == nil || len(fl.Body.List) != 1 {
+				return nil
+			}
+			rs, ok := fl.Body.List[0].(*ast.ReturnStmt)
+			if !ok || len(rs.Results) != 1 {
+				return nil
+			}
+			return rs.Results[0]
+		}
+		paramNames := func(fl *ast.FuncLit) (ns []string) {
+			for _, f := range fl.Type.Params.List {
+				for _, n := range f.Names {
+					ns = append(ns, n.Name)
+				}
+			}
+			return
+		}
+		classify := func(c *ast.CallExpr, keys string) string {
+			callee := anyExprText(c.Fun)
+			text := anyExprText(c)
+			if len(c.Args) != 2 || anyExprText(c.Args[0]) != keys {
+				return "other: " + text
+			}
+			fl, _ := c.Args[1].(*ast.FuncLit)
+			ret := singleReturn(fl)
+			if ret == nil {
+				return "other: " + text
+			}
+			ps := paramNames(fl)
+			if len(ps) != 2 {
+				return "other: " + text
+			}
+			switch callee {
+			case "sort.Slice", "sort.SliceStable":
+				be, ok := ret.(*ast.BinaryExpr)
+				if ok && be.Op.String() == "<" {
+					l, r := stringOf(be.X), stringOf(be.Y)
+					if l != nil && r != nil && indexed(l, keys, ps[0]) && indexed(r, keys, ps[1]) {
+						return "sorted-bytewise"
+					}
+				}
+			case "slices.SortFunc", "slices.SortStableFunc":
+				ce, ok := ret.(*ast.CallExpr)
+				if ok && len(ce.Args) == 2 && (anyExprText(ce.Fun) == "strings.Compare" || anyExprText(ce.Fun) == "cmp.Compare") {
+					l, r := stringOf(ce.Args[0]), stringOf(ce.Args[1])
+					if l != nil && r != nil && anyExprText(l) == ps[0] && anyExprText(r) == ps[1] {
+						return "sorted-bytewise"
+					}
+				}
+			}
+			return "other: " + text
+		}
+		for _, fn := range []string{"evaluate.go", "filter.go", "bexpr.go"} {
+			f := parse(filepath.Join(root, fn))
+			for _, d := range f.Decls {
+				fd, ok := d.(*ast.FuncDecl)
+				if !ok || fd.Body == nil {
+					continue
+				}
+				// the variables that receive MapKeys(), and whether MapRange is used
+				var keyVars []string
+				enumerates := false
+				ast.Inspect(fd.Body, func(n ast.Node) bool {
+					switch x := n.(type) {
+					case *ast.AssignStmt:
+						for i, rhs := range x.Rhs {
+							if c, ok := rhs.(*ast.CallExpr); ok {
+								if se, ok := c.Fun.(*ast.SelectorExpr); ok && se.Sel.Name == "MapKeys" && i < len(x.Lhs) {
+									keyVars = append(keyVars, anyExprText(x.Lhs[i]))
+								}
+							}
+						}
+					case *ast.CallExpr:
+						if se, ok := x.Fun.(*ast.SelectorExpr); ok && (se.Sel.Name == "MapKeys" || se.Sel.Name == "MapRange") {
+							enumerates = true
+						}
+					}
+					return true
+				})
+				if !enumerates {
+					continue
+				}
+				class := "unsorted"
+				isSortOn := func(st ast.Stmt, kv string) *ast.CallExpr {
+					es, ok := st.(*ast.ExprStmt)
+					if !ok {
+						return nil
+					}
+					c, ok := es.X.(*ast.CallExpr)
+					if !ok || len(c.Args) == 0 || anyExprText(c.Args[0]) != kv {
+						return nil
+					}
+					callee := anyExprText(c.Fun)
+					if strings.HasPrefix(callee, "sort.") || strings.HasPrefix(callee, "slices.Sort") {
+						return c
+					}
+					return nil
+				}
+				// the sort has to be the statement right after the enumeration, in the same statement list (not under a condition)
+				direct := map[string]bool{}
+				visitList := func(list []ast.Stmt) {
+					for k, st := range list {
+						as, ok := st.(*ast.AssignStmt)
+						if !ok || len(as.Rhs) != 1 || len(as.Lhs) != 1 {
+							continue
+						}
+						c, ok := as.Rhs[0].(*ast.CallExpr)
+						if !ok {
+							continue
+						}
+						if se, ok := c.Fun.(*ast.SelectorExpr); !ok || se.Sel.Name != "MapKeys" {
+							continue
+						}
+						kv := anyExprText(as.Lhs[0])
+						if k+1 < len(list) {
+							if sc := isSortOn(list[k+1], kv); sc != nil {
+								cl := classify(sc, kv)
+								direct[anyExprText(sc)] = true
+								if class == "unsorted" || cl != "sorted-bytewise" {
+									class = cl
+								}
+							}
+						}
+					}
+				}
+				ast.Inspect(fd.Body, func(n ast.Node) bool {
+					switch x := n.(type) {
+					case *ast.BlockStmt:
+						visitList(x.List)
+					case *ast.CaseClause:
+						visitList(x.Body)
+					case *ast.CommClause:
+						visitList(x.Body)
+					}
+					return true
+				})
+				// any other sort of the enumerated keys (under a condition, later on) is not one this extractor vouches for
+				ast.Inspect(fd.Body, func(n ast.Node) bool {
+					es, ok := n.(*ast.ExprStmt)
+					if !ok {
+						return true
+					}
+					for _, kv := range keyVars {
+						if sc := isSortOn(es, kv); sc != nil && !direct[anyExprText(sc)] {
+							class = "other: " + anyExprText(sc) + " (not the statement right after the enumeration)"
+						}
+					}
+					return true
+				})
+				lines = append(lines, fmt.Sprintf("  (%s, %s, %s)", cs(fn), cs(fd.Name.Name), cs(class)))
+			}
+		}
+		pln(strings.Join(lines, ";\n"))
+		pln("].")
+	})
 	os.Stdout.Write(out.Bytes())
 }
